@@ -195,21 +195,23 @@ class CFG(TTCFG[CFGState, NoneType]):
                     if current_type in constant_types:
                         cst = Constant(current_type)
                         rules[non_terminal][cst] = ([], None)
+                predecessors = non_terminal[1][0][0]
+                last_pred = predecessors.last() if len(predecessors) > 0 else None
+                forbidden = forbidden_sets.get(
+                    (last_pred[0].primitive, last_pred[1])
+                    if last_pred and isinstance(last_pred[0], Primitive)
+                    else ("", 0),
+                    set(),
+                )
                 # Try to add constants from the DSL
                 for P in dsl.list_primitives:
+                    if P.primitive in forbidden:
+                        continue
                     type_P = P.type
                     if type_P == current_type:
                         rules[non_terminal][P] = ([], None)
                 # Function call
                 if depth < max_depth - 1:
-                    predecessors = non_terminal[1][0][0]
-                    last_pred = predecessors.last() if len(predecessors) > 0 else None
-                    forbidden = forbidden_sets.get(
-                        (last_pred[0].primitive, last_pred[1])
-                        if last_pred and isinstance(last_pred[0], Primitive)
-                        else ("", 0),
-                        set(),
-                    )
                     # DSL Primitives
                     for P in dsl.list_primitives:
                         if P.primitive in forbidden:
@@ -332,12 +334,6 @@ class CFG(TTCFG[CFGState, NoneType]):
             if current_type in constant_types:
                 cst = Constant(current_type)
                 rules[non_terminal][cst] = ([], None)
-            # Try to add constants from the DSL
-            for P in dsl.list_primitives:
-                type_P = P.type
-                if type_P == current_type:
-                    rules[non_terminal][P] = ([], None)
-            # Function call
             predecessors = non_terminal[1][0][0]
             last_pred = predecessors.last() if len(predecessors) > 0 else None
             forbidden = forbidden_sets.get(
@@ -346,6 +342,14 @@ class CFG(TTCFG[CFGState, NoneType]):
                 else ("", 0),
                 set(),
             )
+            # Try to add constants from the DSL
+            for P in dsl.list_primitives:
+                if P.primitive in forbidden:
+                    continue
+                type_P = P.type
+                if type_P == current_type:
+                    rules[non_terminal][P] = ([], None)
+            # Function call
             # DSL Primitives
             for P in dsl.list_primitives:
                 if P.primitive in forbidden:
